@@ -112,6 +112,11 @@ class TermEval:
                 else:
                     flat.append(a_)
             args = flat
+            if isinstance(name, str) and name.startswith("operator.") and args:
+                import operator as _op
+                if leafname in ("not_", "truth", "is_", "is_not", "eq", "ne", "lt", "le", "gt", "ge", "contains", "add", "sub", "mul",
+                                "neg", "abs", "getitem"):
+                    return getattr(_op, leafname)(*args)
             if leafname == "slice":
                 return slice(*args)
             if leafname == "len":
